@@ -54,6 +54,21 @@ pub fn plan_for(prop: &str, tier: &str) -> Plan {
             p.required_stats = vec![Stat::LeadersSeen, Stat::VotesGranted];
             p.explanation = "explicit-state exploration; ghost leader_of[term] checked after every API call".into();
         }
+        "C11" => {
+            p.components = vec!["quorum"];
+            p.explanation = "complete enumeration of voter sets, acked-index vectors, vote maps and group assignments against the definitional quorum arithmetic".into();
+            p.assumptions = vec!["value bounds listed in the run statistics (config sizes 0-9, indexes 0-3, groups 0-2)".into()];
+        }
+        "C19" => {
+            p.components = vec!["memstorage"];
+            p.explanation = "joint breadth-first search over (MemStorage, SimStorage, snapshot-point+entries model) under every mutation history within documented preconditions; every query compared after every operation".into();
+            p.assumptions = vec!["value bounds: index and term bounds listed in the run statistics; mutations only within documented preconditions (compaction <= last index, commit_to of stored entries)".into()];
+        }
+        "C18" => {
+            p.components = vec!["inflights"];
+            p.explanation = "joint breadth-first search over (Inflights, bounded-FIFO model) pairs under every operation sequence until fixpoint".into();
+            p.assumptions = vec!["value bounds: capacities and number of adds as listed in the run statistics; add only when not full (documented precondition)".into()];
+        }
         _ => {}
     }
     p
